@@ -2,6 +2,8 @@
 import hashlib
 import os
 
+import numpy as np
+
 from sim.streamsim import configs
 
 
@@ -108,3 +110,16 @@ def manifest_ids(path):
     tail = parts[-1]
     lines = [p.decode("utf-8", "replace").strip() for p in parts[:-1]]
     return [ln for ln in lines if ln], (tail.decode("utf-8", "replace") if tail else None)
+
+
+def torch_portable(cfg, comp):
+    """False for degenerate configurations the PyTorch STFT module rejects by design: a filter without a single
+    non-zero DFT bin at this DFT size (its constructor raises 'filter i is empty')."""
+    if cfg["computer"] != "stft":
+        return True
+    L = int(comp.frame_length)
+    D = int(2 ** np.ceil(np.log2(L))) if cfg.get("pad2", True) else L
+    for i in range(comp.bank.num_filts):
+        if len(comp.bank.get_truncated_response(i, D)[1]) == 0:
+            return False
+    return True
